@@ -1,6 +1,6 @@
 # C20 — policy-driven issuance is bounded: ecosystem mint cap and AMM reward allocations
 LEAN_MODULES = ["Sif.Props.C20"]
-EXTRACT = [{"group": "disp", "passes": ["dispconsts", "mintcallers", "disphooks", "accureset"]}]
+EXTRACT = [{"group": "disp", "passes": ["dispconsts", "mintcallers", "disphooks", "accureset", "blockshare"]}]
 FAMILIES = [
     {"name": "mint", "family": "mint", "group": "disp", "driver": "drv_issue", "n_quick": 6000, "n_thorough": 60000, "seeds_thorough": 3},
     {"name": "dispmsgs", "family": "disp", "group": "disp", "driver": "drv_disp", "n_quick": 600, "n_thorough": 6000, "seeds_thorough": 2},
@@ -23,6 +23,9 @@ RULE = ("mint: real dispensation BeginBlocker on the real keeper/bank, block his
         "overlapping period listed AFTER the running one taking over when that one ends between two distribution blocks, and an accepted edit changing "
         "the running period's own allocation / mod / end, preceded by two directed small-number histories of that kind; per-period totals kept per "
         "(start,end,allocation,mod) of the period the keeper reports as current. "
+        "extreme period shapes (tag ...extreme; a third of the rwedits chains and two directed ones): lengths 2^61..2^64-1 (end = MaxInt64, MaxUint64, "
+        "start+4e18-1, start+2^61, random 62-64 bit; start 0, 1, at / right after the current height), allocation = k*length + {-4..+4} (k = 1, small, "
+        "random, maximal) or near 2^128-1, one pool of multiplier 1 so that the per-block bound floor(allocation/length)*mod is tight, first 6 blocks. "
         "non-trivial = a block that created coins / an accepted message")
 TRUSTED_BASE = [
     "Lean 4.33.0 kernel; axioms propext, Classical.choice, Quot.sound (audited per theorem on every run)",
